@@ -85,7 +85,9 @@ func (b *Bounds) collect(stmt ast.Node, n ast.Node, fs FactSet, extra []*BFact) 
 		switch x.Op {
 		case token.LAND, token.LOR:
 			b.collect(stmt, x.X, fs, extra)
+			b.cur = fs
 			fx, _ := b.condFacts(x.X, x.Op == token.LAND)
+			b.cur = nil
 			b.collect(stmt, x.Y, fs, append(append([]*BFact(nil), extra...), fx...))
 			return
 		case token.SHL, token.SHR:
